@@ -12,4 +12,14 @@ import Refine.Model.Geom
 import Refine.Model.Meshb
 import Refine.Model.Solb
 import Refine.Lemmas.ScalarReal
+import Refine.Lemmas.CodecBytes
+import Refine.Lemmas.CodecC20
+import Refine.Lemmas.CodecLayout
+import Refine.Lemmas.CodecGref
+import Refine.Lemmas.CodecBodies
+import Refine.Lemmas.CodecRoundtrip
+import Refine.Lemmas.SolbRoundtrip
 import Refine.Props.C15
+import Refine.Props.C08
+import Refine.Props.C09
+import Refine.Props.C20
